@@ -11,7 +11,7 @@ pub fn run(ctx: &Ctx, replay_file: Option<String>) -> ! {
     let (kfull, kmax) = ctx.tier.pick((3, 3), (3, 4));
     let (acc, bound) = explore_programs::<Dual>("C01", kfull, kmax, 2);
     let meta = Meta::exploration(
-        "programs = breadth-first closure of {6 leaves} under 10 unary operators (neg, pow 2/3/-1/0.5, exp, log, \
+        "programs = breadth-first closure of {8 leaves incl. a zero-valued and a one-valued one} under 10 unary operators (neg, pow 2/3/-1/0.5, exp, log, \
          norm_cdf, inv_norm_cdf, abs) and + - * / in the kind mixes dual-dual, dual-float, float-dual; EVERY program \
          with <= k operators is executed on the real Dual (all owned/borrowed operand forms at the root up to \
          max_operators_all_forms) and compared in lock step with (i) plain f64 evaluation, (ii) the true gradient \
